@@ -40,6 +40,7 @@ include!("suite_pure.rs");
 include!("suite_table.rs");
 include!("suite_core.rs");
 include!("suite_rot.rs");
+include!("suite_codec.rs");
 
 pub struct State {
     pure_: PureState,
@@ -72,6 +73,9 @@ impl State {
             return r;
         }
         if let Some(r) = self.rot.step(&toks) {
+            return r;
+        }
+        if let Some(r) = codec_step(&toks) {
             return r;
         }
         "bad-op".to_string()
